@@ -9,7 +9,7 @@ import (
 	"github.com/samsarahq/thunder/internal/zzverif/nondet"
 )
 
-const c01ItemKinds = 13
+const c01ItemKinds = 14
 
 func c01ItemSel(name string) *xNode {
 	switch nondet.Choice(name, c01ItemKinds) {
@@ -37,6 +37,8 @@ func c01ItemSel(name string) *xNode {
 		return xOn("Item", xF("sub", xAs("c3", xF("c"))))
 	case 11:
 		return xF("u", xOn("A", xF("x")), xOn("A", xAs("x2", xF("x"))))
+	case 12:
+		return xF("subs", xF("c"))
 	}
 	return xF("id")
 }
